@@ -9,6 +9,7 @@
 import Mfi.Lemmas.AccL
 import Mfi.Model.Auth
 import Mfi.Props.C09
+import Mfi.Lemmas.WorldL
 
 namespace Mfi.Props.C08
 open Mfi.Gen.Acc Mfi.Auth
@@ -175,5 +176,60 @@ theorem unclassified_constraints_pinned :
        (.DriftHarvestReward, .f_harvest_drift_spot_market, 2159362736921184234), (.DriftWithdraw, .f_integration_acc_2, 3003145849582993),
        (.DriftWithdraw, .f_integration_acc_2, 471323873936025127), (.DriftWithdraw, .f_integration_acc_2, 1377500195096470279),
        (.DriftWithdraw, .f_integration_acc_1, 1555694171009604275)] := by decide
+
+section whole_instructions
+open Mfi Mfi.World Mfi.Gen Mfi.Gen.Acc Mfi.Auth
+
+/-! ### whole instructions (Mfi/Model/World.lean: the account checks are INTERPRETED from the regenerated table) -/
+
+/-- who got through: the authority of an unfrozen account, the group admin of a frozen one (never its authority), or —
+    only where the instruction admits it — anyone while the account is in receivership -/
+def EntitledSigner (c : Ctx) (allowR : Bool) : Prop :=
+  let a := acctView c.a.authority c.a.flags
+  (allowR = true ∧ a.inReceivership = true ∧ ¬ (a.frozen = true ∧ c.a.authority = c.signer)) ∨
+  (¬ (allowR = true ∧ a.inReceivership = true) ∧ a.frozen = false ∧ c.a.authority = c.signer) ∨
+  (¬ (allowR = true ∧ a.inReceivership = true) ∧ a.frozen = true ∧ c.g.admin = c.signer ∧ c.a.authority ≠ c.signer)
+
+theorem entitled_signer {c : Ctx} {allowR : Bool} (h : Entitled c allowR) : EntitledSigner c allowR := by
+  have := (signer_rule (acctView c.a.authority c.a.flags) c.g.admin c.signer allowR).1 (by simp [h.signer, h.notFrozen])
+  simpa [EntitledSigner, acctView] using this
+
+/-- **world_user_instructions_need_entitled_signer**: whatever else is true of the context, a deposit, borrow or balance
+    closure goes through only for the entitled signer with NO receivership path, a withdrawal or repayment only for the
+    entitled signer or, in receivership, a third party; and the account and the bank both belong to the group named, the
+    bank is one of the program's own. -/
+theorem world_user_instructions_need_entitled_signer (c : Ctx) :
+    (∀ amt up o, World.deposit c amt up = .ok o → EntitledSigner c false ∧ c.a.group = c.g.key ∧ c.b.group = c.g.key) ∧
+    (∀ amt o, World.borrow c amt = .ok o → EntitledSigner c false ∧ c.a.group = c.g.key ∧ c.b.group = c.g.key) ∧
+    (∀ o, World.closeBalance c = .ok o → EntitledSigner c false ∧ c.a.group = c.g.key ∧ c.b.group = c.g.key) ∧
+    (∀ amt all o, World.withdraw c amt all = .ok o → EntitledSigner c true ∧ c.a.group = c.g.key ∧ c.b.group = c.g.key) ∧
+    (∀ amt all o, World.repay c amt all = .ok o → EntitledSigner c true ∧ c.a.group = c.g.key ∧ c.b.group = c.g.key) := by
+  refine ⟨?_, ?_, ?_, ?_, ?_⟩
+  · intro amt up o h; have := (deposit_ok h).checks.1; exact ⟨entitled_signer this, this.acctGroup, this.bankGroup⟩
+  · intro amt o h; have := (borrow_ok h).checks.1; exact ⟨entitled_signer this, this.acctGroup, this.bankGroup⟩
+  · intro o h; have := (close_ok h).checks; exact ⟨entitled_signer this, this.acctGroup, this.bankGroup⟩
+  · intro amt all o h; have := (withdraw_ok h).checks.1; exact ⟨entitled_signer this, this.acctGroup, this.bankGroup⟩
+  · intro amt all o h; have := (repay_ok h).checks.1; exact ⟨entitled_signer this, this.acctGroup, this.bankGroup⟩
+
+/-- **world_vault_is_the_banks**: the four instructions that move tokens do so only through the liquidity vault recorded in
+    the bank -/
+theorem world_vault_is_the_banks (c : Ctx) :
+    (∀ amt up o, World.deposit c amt up = .ok o → c.b.liquidityVault = c.vaultKey) ∧
+    (∀ amt o, World.borrow c amt = .ok o → c.b.liquidityVault = c.vaultKey) ∧
+    (∀ amt all o, World.withdraw c amt all = .ok o → c.b.liquidityVault = c.vaultKey) ∧
+    (∀ amt all o, World.repay c amt all = .ok o → c.b.liquidityVault = c.vaultKey) :=
+  ⟨fun _ _ _ h => (deposit_ok h).checks.2.1, fun _ _ h => (borrow_ok h).checks.2.1,
+   fun _ _ _ h => (withdraw_ok h).checks.2.1, fun _ _ _ h => (repay_ok h).checks.2⟩
+
+/-- non-vacuity: a stranger is refused with `Unauthorized`, the owner passes the checks -/
+example : ∃ c : Ctx, runChecks c.env (checks .LendingAccountBorrow) = .ok () ∧
+    runChecks { c with signer := 99 }.env (checks .LendingAccountBorrow) = .error (.err E.Unauthorized) := by
+  refine ⟨{ now := 0, g := { key := 1, admin := 2, riskAdmin := 3, paused := false, progFeeRate := 0, window := ⟨0, 0, 0⟩ },
+            a := { key := 4, group := 1, authority := 5, flags := 0, slots := [] }, signer := 5,
+            b := { key := 6, group := 1, liquidityVault := 7,
+                   books := ⟨0,0,0,0,0,0,0,0,0,0,0,0,0,0,0,0,0,0,0⟩, ir := ⟨0,0,0,0,0,0,0,0,0,false,0,0,[],0⟩, opState := 1, origFee := 0, tfBps := 0, tfMax := 0, weightInitZero := false },
+            vaultKey := 7, vaultAmount := 0, risk := [] }, ?_, ?_⟩ <;> decide
+
+end whole_instructions
 
 end Mfi.Props.C08
